@@ -55,14 +55,23 @@ class Harness:
     def send(self, op, meta=None):
         if self.dead is not None:
             return None
+        import threading, time as _t
+        t0 = _t.time()
+        killer = threading.Timer(60, self.p.kill)        # an op that does not finish is a finding (C05: bounded time), not a hung check
+        killer.start()
         try:
             self.p.stdin.write((op + "\n").encode()); self.p.stdin.flush()
             line = self.p.stdout.readline().decode("latin1").rstrip("\n")
         except (BrokenPipeError, OSError):
             line = ""
+        killer.cancel()
+        self.slowest = max(getattr(self, "slowest", 0.0), _t.time() - t0)
         if line == "":
             self.p.wait()
-            self.dead = (op, self.p.returncode, self.p.stderr.read().decode("latin1")[-3000:])
+            err = self.p.stderr.read().decode("latin1")[-3000:]
+            if self.p.returncode in (-9, 137):
+                err = "TIMEOUT: the op did not finish within 60 s\n" + err
+            self.dead = (op, self.p.returncode, err)
             return None
         st = Step(op, line, meta)
         self.steps.append(st)
@@ -108,7 +117,8 @@ class Cl:
 
 
 class Gen:
-    def __init__(self, rng, exe, check_ip=None, netbits=None, real_z=False, bind=None):
+    def __init__(self, rng, exe, check_ip=None, netbits=None, real_z=False, bind=None, hostile=0.0):
+        self.hostile = hostile
         self.rng = rng
         self.h = Harness(exe, real_z)
         self.td = rng.choice([b"t.example.com", b"a.bc", b"tun.x-y.org", b"T.Example.COM"])
@@ -418,6 +428,45 @@ class Gen:
             junk = bytes(self.rng.randrange(256) for _ in range(self.rng.choice([0, 1, 11, 12, 13, 17, 40, 200])))
             self.h.send("dns %s %s" % (src, vlib.hx(junk)), {"kind": "junk"})
 
+    def act_hostile(self):
+        """datagrams a hostile or broken peer could send to the DNS socket: every kind the property lists"""
+        import wiregen
+        rng = self.rng
+        src = addr(0x0a630000 | rng.randrange(1, 9), rng.choice([53, 5353, 4444])) if rng.random() < 0.8 else addr((0xfd00 << 112) | rng.randrange(1, 4), 4444, 6)
+        base = self.srvtd[2:] if self.srvtd.startswith(b"*.") else self.srvtd
+        sub = (b"x9." + base) if self.srvtd.startswith(b"*.") else base
+        k = rng.random()
+        if k < 0.30:
+            # every command letter with arbitrary arguments and userids
+            letter = bytes([rng.choice(b"vVlLiIzZsSoOyYrRnNpP0123456789abcdefABCDEFgGxX-_\x80\xff")])
+            n = rng.choice([0, 1, 2, 3, 4, 5, 6, 15, 16, 17, 30, 60])
+            body = bytes(rng.choice(b"abcdefghijklmnopqrstuvwxyz012345ABCXYZ6789-+_\xbc\xfd\x80\xff.") for _ in range(n))
+            name = (letter + body).replace(b"..", b".").strip(b".") or b"a"
+            msg = P.query(self.dnsid(), name + b"." + sub, rng.choice(QTYPES + [2, 28, 255, 0]), edns=rng.random() < 0.5)
+        elif k < 0.55:
+            # a valid tunnel query, then a directed malformation (counts, truncation, compression loops, pointers to/after the end, reserved label types)
+            cl = rng.choice(self.clients) if self.clients else None
+            nm = (cl.c.ping() if cl and rng.random() < 0.5 else (cl.c.data(b"\x5a" + bytes(rng.randrange(256) for _ in range(40)))[0] if cl else b"paaaa." + sub))
+            good = P.query(self.dnsid(), nm, rng.choice(QTYPES), edns=rng.random() < 0.5)
+            muts = wiregen.mutations(rng, good, 6)
+            msg = rng.choice(muts) if muts else good
+        elif k < 0.70:
+            # raw-mode frames of all lengths and commands, for every userid
+            msg = RAWHDR[:3] + bytes([rng.randrange(256)]) + bytes(rng.randrange(256) for _ in range(rng.choice([0, 1, 15, 16, 17, 100, 2000, 4093, 4096, 5000, 60000])))
+            if rng.random() < 0.3:
+                msg = msg[:rng.randrange(0, 5)]
+        elif k < 0.80:
+            msg = bytes(rng.randrange(256) for _ in range(rng.choice([0, 1, 2, 11, 12, 13, 40, 512, 4096, 65507])))
+        elif k < 0.90:
+            # names with bytes >= 0x80 everywhere, 63-byte labels, maximum length
+            labs = [bytes(rng.choice([0x80, 0xff, 0xbc, 0xfd, 0x2e, 0x00, 0x41, 0x7a]) for _ in range(rng.choice([1, 5, 63]))) for _ in range(rng.randrange(1, 4))]
+            msg = P.header(self.dnsid(), 0x0100, 1, 0) + b"".join(bytes([len(l)]) + l for l in labs) + P.wire_name(sub) + struct.pack(">HH", rng.choice(QTYPES), 1)
+        else:
+            # question names made of compression pointers only
+            tgt = rng.choice([12, 13, 14, 0, 11, 0x3fff, 30])
+            msg = P.header(self.dnsid(), 0x0100, rng.choice([1, 2, 65535]), rng.choice([0, 1])) + bytes([0xc0 | (tgt >> 8), tgt & 0xff]) * rng.choice([1, 2, 9]) + struct.pack(">HH", 10, 1)
+        self.h.send("dns %s %s" % (src, vlib.hx(msg[:65507])), {"kind": "hostile"})
+
     def act_time(self):
         r = self.rng.random()
         if r < 0.7:
@@ -432,11 +481,14 @@ class Gen:
             self.advance(self.rng.choice([60, 61, 62, 120]))
 
     # ---- a whole run
-    def run(self, nsteps):
+    def run(self, nsteps, hostile=0.0):
         rng = self.rng
         for _ in range(nsteps):
             if self.h.dead:
                 break
+            if hostile and self.clients and rng.random() < hostile:
+                self.act_hostile()
+                continue
             r = rng.random()
             live = [c for c in self.clients if c.versioned]
             authed = [c for c in live if c.authed]
